@@ -526,5 +526,31 @@ def liftCase (p : Nat) (m : Mem) : List (Option Ty) → Nat → List CVal → Op
   | _ :: cs, i + 1, vs => liftCase p m cs i vs
 end
 
+/-! ### calling convention (`flatten_functype`) -/
+
+inductive Ctx where
+  | lift | lower
+deriving Repr, DecidableEq
+
+/-- spec `flatten_functype(opts, ft, context)`: core parameter and result types.
+`callback` distinguishes the callback (stackless) async lift ABI from the stackful one. -/
+def flattenFunctype (p : Nat) (async callback : Bool) (ctx : Ctx) (params : List Ty) (result : Option Ty) :
+    List FT × List FT :=
+  let fp := flattenList p params
+  let fr := flattenOpt p result
+  if !async then
+    let fp' := if fp.length > 16 then [ptrFT p] else fp
+    if fr.length > 1 then
+      match ctx with
+      | .lift => (fp', [ptrFT p])
+      | .lower => (fp' ++ [ptrFT p], [])
+    else (fp', fr)
+  else
+    match ctx with
+    | .lift => (if fp.length > 16 then [ptrFT p] else fp, if callback then [.i32] else [])
+    | .lower =>
+        let fp' := if fp.length > 4 then [ptrFT p] else fp
+        (if fr.length > 0 then fp' ++ [ptrFT p] else fp', [.i32])
+
 end Spec
 end Witverif.Abi
